@@ -13,7 +13,7 @@ SPEC = "crypto"
 def parallel_replay(ctx, subcmd, rows, name, parts=8, extra_args=None, classify=None):
     """Split the rows over several harness processes; merges the action histograms."""
     rows = list(rows)
-    n = max(1, min(parts, len(rows) // (4 if subcmd in ("c12-replay", "c11-replay", "c08-replay", "c18-replay") else 50) or 1))
+    n = max(1, min(parts, len(rows) // (4 if subcmd in ("c12-replay", "c11-replay", "c08-replay", "c18-replay", "c18v1-replay") else 50) or 1))
     chunks = [rows[i::n] for i in range(n)]
     def one(iv):
         i, part = iv
@@ -369,13 +369,47 @@ def run_c18(ctx):
     c["truth"] = False
     _canary(ctx, "c18-replay", c)
     ctx.extra["canary"] = "flipped verdict of a true range statement flagged"
+    # ---- V1 presentations against an anchored request (PresentationV1.tla)
+    first_hist = ctx.extra.get("row_histogram")
+    r1 = ctx.tlc(SPEC, "PresentationV1.tla", "PresentationV1_pairs.cfg", name="PresentationV1", workers=4, timeout=900)
+    v1rows = sorted((json.loads(x) for x in r1.replays), key=lambda x: json.dumps(x, sort_keys=True))
+    if len(v1rows) < 3000:
+        raise ToolError("PresentationV1 export too small: %d" % len(v1rows))
+    def ndev(x):
+        return sum(1 for k, v in x["sc"].items() if v != V1_DEFAULT[k])
+    if quick:
+        v1rows = [x for i, x in enumerate(v1rows) if ndev(x) <= 1 or i % 3 == 0 or x["sc"]["issuers"] != "exact" or x["sc"]["sources"] != "both"]
+    v1hist = _row_check(ctx, "c18v1-replay", v1rows, "c18v1", need={"account:verified": 20, "identity:verified": 20, "account:false": 50, "identity:false": 50, "account:PresentationUnverifiable": 10,
+                        "identity:PresentationUnverifiable": 10, "account:CredentialIssuer": 10, "identity:CredentialIssuer": 10, "account:CredentialType": 5, "identity:CredentialType": 5,
+                        "account:SubjectClaims": 10, "identity:SubjectClaims": 10, "account:RequestAnchor": 10, "account:ContextInformation": 10, "account:Network": 5, "account:CredentialExpired": 5,
+                        "account:CredentialNotValidYet": 2, "account:NoVraBlockHash": 2, "account:VraBlockHash": 2, "account:InvalidContextPropertyValue": 2, "account:UnknownContextProperty": 2,
+                        "roundtrip": 10}, parts=14)
+    ctx.extra["row_histogram"] = first_hist
+    ctx.extra["v1_row_histogram"] = v1hist
+    ctx.extra["v1_rows"] = len(v1rows)
+    c = json.loads(json.dumps(next(x for x in v1rows if x["expected"] == "Verified" and x["kind"] == "identity")))
+    c["expected"] = "CredentialIssuer"
+    c["failing"] = ["CredentialIssuer"]
+    _canary(ctx, "c18v1-replay", c)
     ctx.rule = ("Statements.tla: attribute lists over 12 ordered values (length-then-lexicographic order of the field encoding), statements of one atom (reveal, range with every lower / upper "
                 "combination around the value, membership and non-membership in sets of 1..5 values) and of two atoms about different attributes, perturbations {challenge, credential, commitments, "
                 "statement, proof bytes, proof version}; both proof versions; the same statements inside web3id presentations about an account credential and about a web3 credential with "
-                "perturbations {context, public data (commitments / issuer key), credential id / holder, statement, proof borrowed from another presentation, linking proof borrowed}; distinct = distinct rows")
-    ctx.assumptions += ["presentations are bound for account and web3 credentials of web3id (Request::prove_with_rng / Presentation::verify incl. issuer-signed commitments and linking signatures); the v1 presentation / anchor format and identity-credential presentations are not",
+                "perturbations {context, public data (commitments / issuer key), credential id / holder, statement, proof borrowed from another presentation, linking proof borrowed}; "
+                "PresentationV1.tla: the V1 format - the verification pipeline of verify_presentation_with_request_anchor as one action per check (network, validity period, anchor hash, anchor block "
+                "hash, proofs, context, claims per position: credential kind, issuer, statements) with the invariants 'verified iff no check fails', 'the named failure is a failing check', "
+                "'verified implies every requested statement true, allowed kind and issuer, valid, made for this request'; every scenario with at most two deviations from the honest one over 12 "
+                "fields (about 60 alternative values: networks, five times around the validity period, five anchored-data differences, seven given-context and seven requested-context variants, "
+                "twelve alterations of the presentation or verification material after proving, claim counts 0..2, allowed kinds, seven issuer lists, four request/statement mismatches) for account "
+                "based and identity based credentials (identity objects issued with real keys), plus 120 statements (equals / range / set atoms over string and numeric attributes at the boundaries) "
+                "with three attribute lists; each row proved with RequestV1::prove_with_rng and verified; the verdict kind is compared when exactly one check fails; JSON and binary round trip of "
+                "every third presentation; distinct = distinct rows")
+    ctx.assumptions += ["presentations are bound for account and web3 credentials of web3id (Request::prove_with_rng / Presentation::verify incl. issuer-signed commitments and linking signatures); V1 presentations (web3id::v1) for account based and identity based credentials incl. the anchored-request verification",
                         "an account credential's id is not part of the proof (the verifier looks the commitments up by it): 'another credential id' is replayed as verification against that credential's commitments",
                         "commitments are built from the attribute values directly (the commitments of a deployed credential are the same Pedersen commitments)"]
+
+
+V1_DEFAULT = {"cred_net": "T", "ctx_net": "T", "time": "inside", "anchor": "ok", "pres_given": "same", "req_requested": "bh", "pres_requested": "filled", "crypto": "none",
+              "claims": "one", "sources": "both", "issuers": "exact", "req_stmt": "same"}
 
 
 RUNNERS = {"C20": run_c20, "C19": run_c19, "C12": run_c12, "C07": run_c07, "C11": run_c11, "C08": run_c08, "C18": run_c18}
